@@ -296,7 +296,7 @@ STAMP_DOCS = ["{ nope nope2 }", "{ tboom x: tboom q { tboom } }", "{ boom y: boo
 
 
 @obligation(tier="quick", timeout=120, samples=[{"k": 0, "start": 0}, {"k": 1, "start": 10}, {"k": 4, "start": -5}],
-            symbolic=["start: int — where the coercer's error counter starts"], selectors=["k: request with several errors of one rule / of one user exception class / one error"],
+            selectors=["start: where the coercer's error counter starts (4 values)", "k: request with several errors of one rule / of one user exception class / one error"],
             bounds="5 requests, each sent twice to the stamping engine and then to an engine with the default coercer",
             note="an error_coercer that writes into error['extensions'] in place: every reported error carries exactly the annotation the coercer gave to THAT error (all different), in this "
                  "response and in the next one, and nothing of it shows in the responses of another engine")
@@ -306,6 +306,7 @@ def c18_stamping_coercer(k: int, start: int) -> bool:
     """
     k = pick(k, len(STAMP_DOCS))
     q = STAMP_DOCS[k]
+    start = pick(start, 4) * 1000          # "err-%d" % <symbolic int> is CPython's int rendering (realises, one path per value): four representatives
     ENGS_._cached_parse_and_validate_query.cache_clear()
     seen_ids = []
     for rep in range(2):
